@@ -59,7 +59,9 @@ PeekOK(p, b) ==
 Judge(c) ==
   LET s == SF!Run(c.prog, c.am, c.fm)
       notes == SF!FinalNotes(s)
-      claimed == notes \cap SF!UnclaimedNotes = {}
+      \* a probe of the class "remove-of-inserted" is held to the tools-agree clause although the generators leave it out
+      claimed == \/ notes \cap SF!UnclaimedNotes = {}
+                 \/ c.probe = 1 /\ notes \cap SF!UnclaimedNotes = {"remove-of-inserted"}
       \* @bytes cannot be written in ASM text: each tool is still held to the model, not to each other
       modelok == notes \subseteq {"bytes-override"}
       peekclaim == SF!Stationary(s)
